@@ -286,8 +286,14 @@ def main(outdir):
         hdr = ("(* GENERATED by harness/py2v.py from the current /repo/src on every run — do not edit. *)\n"
                "From Coq Require Import String ZArith List.\nFrom Verif Require Import Lib.Base Lib.PyStr Lib.PyOps.\n"
                "Import ListNotations.\nOpen Scope string_scope.\nOpen Scope Z_scope.\n\n")
-        with open(os.path.join(outdir, group + ".v"), "w") as f:
-            f.write(hdr + "\n".join(defs))
+        path = os.path.join(outdir, group + ".v")
+        text = hdr + "\n".join(defs)
+        old = open(path).read() if os.path.exists(path) else None
+        if old != text:         # unchanged source: leave the file (and make's timestamps) alone
+            tmp = path + ".tmp%d" % os.getpid()
+            with open(tmp, "w") as f:
+                f.write(text)
+            os.replace(tmp, path)
     print("py2v: %d functions translated into %d files" % (sum(len(v) for v in groups.values()), len(groups)))
 
 
